@@ -30,6 +30,8 @@ func propC08() Property {
 			{ID: "C08-R7", Desc: "a handler that initiated the Logout returns the logout state", Min: 3, Run: c08R7},
 			{ID: "C08-R8", Desc: "OnLogon precedes every return that makes the session logged on", Min: 2, Run: c08R8},
 			{ID: "C08-R9", Desc: "the logout state never hands the session back to a logged-on state", Min: 2, Run: c08R9},
+			{ID: "C08-R14", Desc: "the pending-timeout wrapper is transparent to state tests (= C20-R4)", Min: 2, Run: c20R4},
+			{ID: "C08-R13", Desc: "OnLogon only after the Logon reply was sent", Min: 1, Run: c08R13},
 			{ID: "C08-R12", Desc: "after ShutdownNow the session state is changed on every path", Min: 2, Run: c08R12},
 			{ID: "C08-R11", Desc: "the application-side send API only queues: transmission is decided on the session loop (= C02-R6)", Min: 2, Run: c02R6},
 			{ID: "C08-R10", Desc: "not logged on → queue emptied; close → nil → drain on teardown", Min: 2, Run: c08R10},
